@@ -73,6 +73,7 @@ def handle (op : String) (req : Json) : R Json := do
                 ("order", jList jStr ((byRank (fun e => acqKey v e.name) acc).map (·.name))),
                 ("keys_defined", jBool (keysDefined v (acc.map (·.name)))),
                 ("valid_stamps", jBool stamps),
+                ("strict_stamps", jBool (v != .tofwerk || acc.all (fun e => stampStrict e.name.toList))),
                 ("hkey", jBool hkey),
                 ("hyp", jBool (injective && covers && stamps && nameform && header && rect && hkey))])
   | "c04.sort" =>
@@ -104,6 +105,7 @@ def handle (op : String) (req : Json) : R Json := do
             ("stamp", jList jNat (stampFields s)),
             ("strptime_ok", jBool (strptimeOk (stampFields s))),
             ("valid_stamp", jBool (validStampB (stampFields s))),
+            ("strict_stamp", jBool (stampStrict s)),
             ("timegm", jInt (timegm (stampFields s)))]) names)])
   | _ => throw s!"unknown op {op}"
 
